@@ -197,7 +197,8 @@ def replay(case):
 def _strategy():
     return lifecycle_cases(statuses_full=True, respawn_false=True,
                            kill_cmd=True, set_other=True, rm=True,
-                           config=True, ondemand=True, hooks=True)
+                           config=True, ondemand=True, hooks=True,
+                           capture=True)
 
 
 def plan(tier, seed):
